@@ -183,7 +183,8 @@ where
     }
 
     pub fn get(&self, x: A) -> Option<&Vec<B>> {
-        self.data.get(x.as_usize())
+        //an empty row (it exists as soon as a higher index is in use) means there is no relation
+        self.data.get(x.as_usize()).filter(|values| !values.is_empty())
     }
 
     pub fn totalcount(&self) -> usize {
